@@ -163,6 +163,15 @@ def _from_poly(d):
             return _mk(c)
         if c == 1 and len(m) == 1 and m[0][1] == 1:
             return m[0][0]
+    # k * (if c {a} else {b}) + m with numeric a, b is (if c {k a + m} else {k b + m}): one spelling for `2 * (flag as i8) - 1`
+    # and `if flag { 1 } else { -1 }`
+    nonconst = [(m, c) for m, c in items if m != ()]
+    if len(nonconst) == 1 and len(items) <= 2:
+        m, c = nonconst[0]
+        if len(m) == 1 and m[0][1] == 1 and m[0][0][0] == 'ite' and m[0][0][2][0] == 'num' and m[0][0][3][0] == 'num':
+            t = m[0][0]
+            k0 = sum((cc for mm, cc in items if mm == ()), Fraction(0))
+            return ite(t[1], _mk(c * numval(t[2]) + k0), _mk(c * numval(t[3]) + k0))
     items.sort(key=lambda mc: (tuple((_key(a), e) for a, e in mc[0]),))
     return mk('poly', tuple((m, (c.numerator, c.denominator)) for m, c in items))
 
@@ -271,6 +280,8 @@ def cmp(rel, a, b):
         v = numval(d)
         res = {'gt': v > 0, 'ge': v >= 0, 'eq': v == 0, 'ne': v != 0}[rel]
         return TRUE if res else FALSE
+    if d[0] == 'ite' and d[2][0] == 'num' and d[3][0] == 'num':
+        return ite(d[1], cmp(rel, d[2], ZERO), cmp(rel, d[3], ZERO))          # a comparison of a two-valued constant: decided per arm
     return mk('cmp', rel, d)
 
 
@@ -339,6 +350,10 @@ def ite(c, a, b):
         return b
     if a == b:
         return a
+    if a == TRUE and b == FALSE:
+        return c
+    if a == FALSE and b == TRUE:
+        return lnot(c)
     if c[0] == 'not':
         # boolean negation is exact (also for NaN-false comparisons): ite(!c, a, b) = ite(c, b, a)
         return ite(c[1], b, a)
